@@ -242,28 +242,7 @@ def check_sp_list(ctx, repo):
     ok, wit = equivalent(pc.raises, spec)
     ctx.check(ok, "R2", "check_sp[enforce_list]:predicate", "with enforce_list=True rejects iff sp is neither None, an int >= 1 nor a list",
               "check_sp(enforce_list=True) rejects iff %s (witness %s)" % (show(pc.raises), wit), ctx.loc(mod, fn))
-    # an accepted integer is wrapped (`sp = [sp]` or `return [sp]`) exactly under enforce_list; nothing else changes the value
-    def is_wrap(v):
-        return isinstance(v, ast.List) and len(v.elts) == 1 and dotted(v.elts[0]) == "sp"
-
-    def wrap_event(st):
-        return (isinstance(st, ast.Assign) and len(st.targets) == 1 and dotted(st.targets[0]) == "sp" and is_wrap(st.value)) or \
-            (isinstance(st, ast.Return) and st.value is not None and is_wrap(st.value))
-    other_stores = [n for n in astq.walk_no_nested(fn) if isinstance(n, (ast.Assign, ast.AugAssign)) and not wrap_event(n) and any(
-        isinstance(x, ast.Name) and x.id == "sp" and isinstance(x.ctx, ast.Store) for x in ast.walk(n))]
-    other_rets = [r for r in astq.returns(fn) if not wrap_event(r) and dotted(r.value) != "sp"]
-    ctx.check(not other_stores and not other_rets, "R2", "check_sp:value", "returns sp itself or the one-element list [sp]",
-              "check_sp changes the value it hands back: %s" % [ast.unparse(x)[:60] for x in other_stores + other_rets], ctx.loc(mod, fn))
-    for flag, spec_w, text in ((TRUE, conj(neg(atom("isnone(x)")), atom("is_int(x)"), neg(atom("lt(x, 1)"))), "every accepted integer"),
-                               (FALSE, FALSE, "nothing")):
-        pcw = PathConditions(fn, Atomizer({"sp": "x"}, const_names={"enforce_list": flag}), mark=wrap_event)
-        wc = FALSE
-        for st, c in pcw.marked:
-            wc = disj(wc, c)
-        okw, witw = equivalent(wc, spec_w)
-        ctx.check(bool(okw), "R2", "check_sp[enforce_list=%s]:wraps" % (flag == TRUE), "with enforce_list=%s %s is wrapped in a list" % (flag == TRUE, text),
-                  "with enforce_list=%s an sp is wrapped in a list iff %s (expected: %s; differing case %s)" % (flag == TRUE, show(wc), text, witw),
-                  ctx.loc(mod, fn))
+    # what check_sp hands back (sp itself, [sp] for an integer under enforce_list) is decided by the witness table (R2 oracle:check_sp*)
 
 
 DEFAULTS = (
@@ -559,8 +538,8 @@ def check_initial_window_settings(ctx, repo):
         if isinstance(f, ast.Attribute) and dotted(f.value) == "self" and f.attr in cls.methods and f.attr != fn.name:
             sub = PathConditions(cls.methods[f.attr], Atomizer())
             r = _direct_raises(sub)
-            if r != FALSE and all(a.startswith(("isnone(self.", "self.", "lt(self.", "eq(self.")) for a in atoms_of(r)):
-                return r
+            if r != FALSE and r != TRUE and atoms_of(r) and all(a.startswith(("isnone(self.", "self.", "lt(self.", "eq(self.")) for a in atoms_of(r)):
+                return r  # (an unconditional raise is an abstract stub that dispatches to an override)
         return None
     pc = PathConditions(fn, Atomizer(), inline_raising_calls=inline)
     got = pc.raises if any(inline(c, None) is not None for c in astq.calls(fn)) else _direct_raises(pc)
@@ -825,6 +804,8 @@ def check_reducer_settings(ctx, repo, flow):
 
 
 def run_all(ctx, repo):
+    from . import _c20_oracle
+    _c20_oracle.run_all(ctx, repo, rule="R2")
     check_fh_init(ctx, repo)
     check_names_callers(ctx, repo)
     check_names(ctx, repo)
